@@ -324,10 +324,12 @@ theorem source_butterflies_on_flat_memory (m : Nat) (f : Flat) (hs : f.data.size
     `Gen/Statics.lean`, regenerated by `/verif/translate/statics.py` on every run) declares no global state besides the five
     `LazyLock` tables and uses no API through which the environment of the process could reach a result — no threads,
     no CPU count, no environment variables, clocks, files, random numbers — and asks the CPU for its features only in
-    `engine_default.rs`. (The contents of the tables are C15's `source_tables_and_integer_code` / `source_mul_tables`.) -/
+    `engine_default.rs`; and WHICH code is compiled depends on nothing but `test`, `target_arch` and the hooks' feature (no
+    `cfg(target_feature = …)`, `cfg(debug_assertions)`, … : what is translated is what every build runs). (The contents of the tables are C15's `source_tables_and_integer_code` / `source_mul_tables`.) -/
 theorem source_engines_take_no_ambient_input :
     RS.Gen.ambientUses = [] ∧ RS.Gen.featureDetectionsOutsideDefaultEngine = 0 ∧
-    RS.Gen.statics.map Prod.fst = [0, 1, 3, 2, 4] ∧ RS.Gen.threadLocals = 0 ∧ RS.Gen.staticMuts = 0 := by decide
+    RS.Gen.statics.map Prod.fst = [0, 1, 3, 2, 4] ∧ RS.Gen.threadLocals = 0 ∧ RS.Gen.staticMuts = 0 ∧
+    RS.Gen.otherCfgPredicates = [] := by decide
 
 open RS.SrcG RS.RustG in
 /-- the ENTRY POINTS of the engines in today's source (`Gen/SrcGlue.lean`): `Engine::{fft, ifft, mul, eval_poly}` of
